@@ -89,7 +89,10 @@ func genLayCase(r *rng.R, id int, base string) *layCase {
 		n = 2
 	}
 	// a GLOBAL relative output:file (-g): resolved per converter against the directory of ITS declaring file
-	if r.Chance(20) && !pinCwd && !pinShared && !pinAbsUnclean {
+	// every 10th case pins a global output:file that one converter overrides with its own (no output:package anywhere):
+	// the package follows the file that is finally in effect
+	pinOverride := id%10 == 9
+	if (r.Chance(20) || pinOverride) && !pinCwd && !pinShared && !pinAbsUnclean {
 		lc.Global = []string{"output:file ./gx/out.go"}
 		n = 2 + r.Intn(2)
 	}
@@ -103,7 +106,10 @@ func genLayCase(r *rng.R, id int, base string) *layCase {
 		j := r.Intn(2)
 		var targetDir string // relative to root, "" = unknown/default
 		kk := r.Intn(8)
-		if len(lc.Global) > 0 {
+		if pinOverride && i == 1 {
+			kk = []int{3, 4, 7}[(id/10)%3]
+		} else if len(lc.Global) > 0 && (i == 0 || r.Bool()) {
+			// (the others carry their own output:file, which overrides the global one — also for the inferred package)
 			kk = 100
 		}
 		if pinCwd && i == 0 {
@@ -155,7 +161,7 @@ func genLayCase(r *rng.R, id int, base string) *layCase {
 			targetDir = cv.Pkg
 		}
 		pk := r.Intn(6)
-		if len(lc.Global) > 0 {
+		if len(lc.Global) > 0 && (kk == 100 || r.Bool() || pinOverride) {
 			pk = 5
 		}
 		if pinShared {
@@ -294,7 +300,7 @@ func packageClauseOf(path string) string {
 
 func runC15(e *env) error {
 	e.rep.Rule = "cases = scratch modules with 1-3 converters (interfaces and variables blocks) over 1-3 packages, output:file in {default, relative, parent, absolute, @cwd, sibling file} x output:package in {absent, path, path:name, :name} x existing/non-existing target package x a global (-g) relative output:file resolved per input package x shared output files x invocation {./..., explicit dirs, -cwd (absolute and relative) from another directory, module pattern}; the goverter binary built from /repo is run, the tree is snapshotted before/after, and created paths, package clauses and modes are compared with Gv.Layout (place / outputPath / resolveOutputPackage / guessAlias). Direct calls compare jennifer's guessAlias (via jen.NewFilePath) and path/filepath functions with the model. non-trivial = at least one output setting or several converters; distinct = canonical case"
-	nCases := 48
+	nCases := 100
 	if e.thorough {
 		nCases = 700 * e.scale
 	}
